@@ -566,3 +566,144 @@ Proof.
   split; [apply Inv_start|]. vm_compute. repeat split; auto.
   intros H. repeat (destruct H as [H|H]; [discriminate|]). destruct H.
 Qed.
+
+(* ------------------------------------------------------------------ poll: how long the delay can last *)
+(* A ready slot is passed over only in a pass that closes (and so removes) a context in a higher
+   slot: with n at least the number of live slots from j upwards (the kernel's return value counts
+   every slot with a non-zero revents), the walk reaches slot j unless some higher slot carried
+   POLLIN and POLLHUP|POLLERR together - and such a slot is flagged, closed and removed.  Since the
+   slots above j are only ever removed during a pass that stops early (the signal slot 0, where
+   phases could add contexts, is not reached), a ready slot at index j is read after at most
+   nfd - j passes. *)
+Definition live (re : nat) : bool := has_in re || has_hup_err re.
+Definition slot_live (s : st) (i : nat) : bool :=
+  match nth_error (parr s) i with Some (_, re) => live re | None => false end.
+Definition lc (s : st) (lo hi : nat) : nat := length (filter (slot_live s) (seq lo (hi - lo))).
+
+Lemma lc_ext : forall s s' lo hi, (forall i, lo <= i -> i < hi -> nth_error (parr s') i = nth_error (parr s) i) ->
+  lc s' lo hi = lc s lo hi.
+Proof.
+  intros s s' lo hi H. unfold lc. f_equal. apply filter_ext_in. intros i Hi. apply in_seq in Hi.
+  unfold slot_live. rewrite H; auto; lia.
+Qed.
+
+Lemma lc_top : forall s lo i, lo <= i -> lc s lo (S i) = lc s lo i + (if slot_live s i then 1 else 0).
+Proof.
+  intros s lo i H. unfold lc. replace (S i - lo) with (S (i - lo)) by lia.
+  rewrite seq_S, filter_app, app_length. simpl. replace (lo + (i - lo)) with i by lia.
+  destruct (slot_live s i); simpl; lia.
+Qed.
+
+Lemma poll_step_n : forall i n s y rey, i <> 0 -> nth_error (parr s) i = Some (y, rey) ->
+  snd (poll_step i n s) = n - (if has_in rey then 1 else 0) - (if has_hup_err rey then 1 else 0).
+Proof.
+  intros i n s y rey Hi N. unfold poll_step. apply Nat.eqb_neq in Hi. rewrite Hi, N.
+  destruct (has_in rey), (has_hup_err rey); simpl;
+    repeat match goal with |- context [if ?c then _ else _] => destruct c; simpl end; lia.
+Qed.
+
+Lemma poll_step_both_closes : forall i n s y rey, i <> 0 -> nth_error (parr s) i = Some (y, rey) ->
+  has_in rey = true -> has_hup_err rey = true ->
+  exists t, tr (fst (poll_step i n s)) = t ++ tr s /\ In (EClose y) t.
+Proof.
+  intros i n s y rey Hi N HI HH. unfold poll_step. apply Nat.eqb_neq in Hi. rewrite Hi, N, HI, HH.
+  assert (cflag (cx (set_flag y (cb_read y s)) y) = true) as ->.
+  { unfold set_flag. simpl. rewrite Nat.eqb_refl. auto. }
+  simpl. destruct (tg_cb_read y s) as [t T]. unfold set_flag. simpl. rewrite T.
+  exists (EClose y :: t). split; auto. left; auto.
+Qed.
+
+Lemma poll_walk_skip : forall k n s j x re, Inv s -> bk s = BPoll ->
+  nth_error (parr s) j = Some (x, re) -> 1 <= j -> j < k -> has_in re = true -> lc s j k <= n ->
+  (exists t m, tr (poll_walk k n s) = t ++ tr s /\ In (ERead x m) t) \/
+  (exists t y, tr (poll_walk k n s) = t ++ tr s /\ In (EClose y) t).
+Proof.
+  induction k as [|i IH]; intros n s j x re I B Nj Hj Hjk Hin Hn; [lia|].
+  simpl.
+  destruct (Inv_poll_step i n s I B) as [I' B'].
+  destruct (poll_step_facts i n s) as (T & _ & _).
+  destruct (Nat.eq_dec i j) as [->|Hne].
+  - (* the walk is at x's slot *)
+    left.
+    assert (exists t m, tr (fst (poll_step j n s)) = t ++ tr s /\ In (ERead x m) t) as (t & m & T1 & K1).
+    { unfold poll_step. assert (Nat.eqb j 0 = false) as -> by (apply Nat.eqb_neq; lia).
+      rewrite Nj, Hin.
+      destruct (cb_read_facts x s) as [_ [t0 T0]].
+      assert (exists s2 n2, (if has_hup_err re then (set_flag x (cb_read x s), n - 1 - 1) else (cb_read x s, n - 1)) = (s2, n2) /\
+                tr s2 = tr (cb_read x s)) as (s2 & n2 & -> & T2).
+      { destruct (has_hup_err re); eexists; eexists; split; try reflexivity. }
+      destruct (cflag (cx s2 x)); simpl; rewrite T2, T0.
+      - exists (EClose x :: t0 ++ [ERead x (cq (cx s x))]), (cq (cx s x)). split.
+        + simpl. rewrite <- app_assoc. auto.
+        + right. apply in_or_app. right; left; auto.
+      - exists (t0 ++ [ERead x (cq (cx s x))]), (cq (cx s x)). split.
+        + rewrite <- app_assoc. auto.
+        + apply in_or_app. right; left; auto. }
+    destruct (poll_step j n s) as [s' n']. simpl in *.
+    destruct (Nat.eqb n' 0); [eauto|].
+    destruct (tg_poll_walk j n' s') as [t2 T2].
+    exists (t2 ++ t), m. split; [rewrite T2, T1, app_assoc; auto|apply in_or_app; auto].
+  - assert (Hlt : j < i) by lia.
+    assert (LJ : slot_live s j = true) by (unfold slot_live, live; rewrite Nj, Hin; auto).
+    assert (L1 : 1 <= lc s j i).
+    { clear - LJ Hlt. unfold lc. assert (In j (filter (slot_live s) (seq j (i - j)))) as H.
+      { apply filter_In. split; auto. apply in_seq. lia. }
+      destruct (filter _ _); [destruct H|simpl; lia]. }
+    rewrite (lc_top s j i) in Hn by lia.
+    destruct (nth_error (parr s) i) as [[y rey]|] eqn:Ni.
+    + assert (Hi : i < length (parr s)) by (apply nth_error_Some; congruence).
+      assert (SL : slot_live s i = live rey) by (unfold slot_live; rewrite Ni; auto).
+      destruct (has_in rey && has_hup_err rey) eqn:BOTH.
+      * (* counted twice: this slot is flagged, closed and removed *)
+        apply Bool.andb_true_iff in BOTH. destruct BOTH as [HI HH].
+        destruct (poll_step_both_closes i n s y rey ltac:(lia) Ni HI HH) as (t1 & T1 & K1).
+        right. destruct (poll_step i n s) as [s' n']. simpl in *.
+        destruct (Nat.eqb n' 0); [eauto|].
+        destruct (tg_poll_walk i n' s') as [t2 T2].
+        exists (t2 ++ t1), y. split; [rewrite T2, T1, app_assoc; auto|apply in_or_app; auto].
+      * pose proof (poll_step_n i n s y rey ltac:(lia) Ni) as PN.
+        assert (LW : forall idx, j <= idx -> idx < i -> nth_error (parr (fst (poll_step i n s))) idx = nth_error (parr s) idx).
+        { intros idx H1 H2. apply poll_step_lower; auto; lia. }
+        destruct (poll_step i n s) as [s' n']. simpl in *.
+        assert (N' : lc s j i <= n').
+        { rewrite PN. rewrite SL in Hn. unfold live in Hn.
+          destruct (has_in rey), (has_hup_err rey); simpl in *; try discriminate; lia. }
+        assert (Nat.eqb n' 0 = false) as -> by (apply Nat.eqb_neq; lia).
+        destruct (IH n' s' j x re I' B') as [(t & m & T1 & K1)|(t & z & T1 & K1)]; auto.
+        -- rewrite LW; auto.
+        -- rewrite (lc_ext s s' j i); auto.
+        -- left. destruct T as [t0 T0]. exists (t ++ t0), m. split; [rewrite T1, T0, app_assoc; auto|apply in_or_app; auto].
+        -- right. destruct T as [t0 T0]. exists (t ++ t0), z. split; [rewrite T1, T0, app_assoc; auto|apply in_or_app; auto].
+    + assert (poll_step i n s = (s, n)) as ->.
+      { unfold poll_step. assert (Nat.eqb i 0 = false) as -> by (apply Nat.eqb_neq; lia). rewrite Ni. auto. }
+      assert (SL : slot_live s i = false) by (unfold slot_live; rewrite Ni; auto).
+      rewrite SL in Hn.
+      assert (Nat.eqb n 0 = false) as -> by (apply Nat.eqb_neq; lia).
+      apply (IH n s j x re); auto. lia.
+Qed.
+
+(* one pass of the poll loop: a registered context reported readable is read, or the pass closed a
+   context (whose slot, above j, is removed): the delay of evl_read_called_when_pending costs one
+   higher slot per pass *)
+Theorem poll_delay_bound_step : forall rep n s j x r0, Inv s -> bk s = BPoll ->
+  nth_error (parr s) j = Some (x, r0) -> 1 <= j -> has_in (lookup x rep) = true ->
+  let s1 := set_parr (map (fun p => (fst p, lookup (fst p) rep)) (parr s)) s in
+  lc s1 j (length (parr s1)) <= n ->
+  (exists t m, tr (dispatch_poll rep n s) = t ++ tr s /\ In (ERead x m) t) \/
+  (exists t y, tr (dispatch_poll rep n s) = t ++ tr s /\ In (EClose y) t).
+Proof.
+  intros rep n s j x r0 I B Nj Hj Hin s1 Hn. unfold dispatch_poll. fold s1.
+  assert (V : same_view s s1).
+  { unfold s1. constructor; simpl; auto. rewrite map_map. simpl. auto. }
+  assert (I1 : Inv s1) by (eapply Inv_view; eauto).
+  assert (Nj1 : nth_error (parr s1) j = Some (x, lookup x rep)).
+  { unfold s1. simpl. rewrite nth_error_map, Nj. auto. }
+  assert (Hlen : j < length (parr s1)) by (apply nth_error_Some; congruence).
+  assert (1 <= n).
+  { assert (slot_live s1 j = true) as LJ by (unfold slot_live, live; rewrite Nj1, Hin; auto).
+    assert (In j (filter (slot_live s1) (seq j (length (parr s1) - j)))) as H.
+    { apply filter_In. split; auto. apply in_seq. lia. }
+    unfold lc in Hn. destruct (filter _ _); [destruct H|simpl in Hn; lia]. }
+  assert (Nat.ltb 0 n = true) as -> by (apply Nat.ltb_lt; lia).
+  apply (poll_walk_skip (length (parr s1)) n s1 j x (lookup x rep)); auto.
+Qed.
